@@ -290,9 +290,9 @@ class MetadataBase(object):
         :type f: file or str
         """
         self.validate()
+        parser = self._get_parser()
+        self.serialize(parser)
         with open_file_obj(f, "w") as f:
-            parser = self._get_parser()
-            self.serialize(parser)
             self.build_file(parser, f)
 
     def dumps(self):
